@@ -3,6 +3,7 @@
   The driver never defaults on a malformed request: it answers `(bad-op …)`.
 -/
 import Sfv.Driver.Sexp
+import Sfv.Model.Container
 namespace Sfv
 
 structure DState where
@@ -28,6 +29,21 @@ def showFail : Fail → String
   | .ub s => "(ub " ++ showSite s ++ ")"
 def showSaveFail : SaveFail → String
   | .removedAlive => "removed-alive" | .variantAbsent => "variant-absent" | .shape => "shape"
+
+def showLoadErr : LoadErr → String
+  | .eof => "(err eof)"
+  | .notSavefile => "(err general)"
+  | .futureLib => "(err general)"
+  | .wrongVersion => "(err wrongversion)"
+  | .schema => "(err schema)"
+  | .payload f => showFail f
+  | .schemaSection f => showFail f
+  | .decompress => "(compressed)"
+
+/-- schema section treated as opaque bytes supplied by the caller (used until the request carries
+    a schema understood by `Sfv.Model.Schema`) -/
+def opaqueSchema : SchemaCodec Bytes :=
+  { encS := fun _ s => s, decS := fun _ bs => .ok ([], bs), compat := fun _ _ => true }
 
 def parseBool : String → Option Bool
   | "true" => some true | "false" => some false | _ => none
@@ -62,6 +78,22 @@ def step (st : DState) (line : String) : DState × String :=
         | .ok (v, r) => (st, "(ok " ++ showTV ty v ++ " " ++ toString r.length ++ ")")
         | .error f => (st, showFail f)
       | _, _, _ => (st, "(bad-op dec)")
+    | .list [.atom "file", .atom kind, .atom name, .atom ver, v, .atom schemaHex] =>
+      match st.env.lookup name, ver.toNat?, parseV v, parseHex schemaHex with
+      | some ty, some ver, some v, some sb =>
+        let schema : Option Bytes := if kind == "plain" then some sb else none
+        match saveFile opaqueSchema schema ty ver v with
+        | .ok b => (st, "(ok " ++ toHex b ++ ")")
+        | .panic f => (st, "(panic " ++ showSaveFail f ++ ")")
+        | .unencodable => (st, "(unenc)")
+      | _, _, _, _ => (st, "(bad-op file)")
+    | .list [.atom "loadfile", .atom "noschema", .atom name, .atom memver, .atom hex] =>
+      match st.env.lookup name, memver.toNat?, parseHex hex with
+      | some ty, some memver, some bs =>
+        match loadFile st.cfg zooConv opaqueSchema none ty memver bs with
+        | .ok (v, r) => (st, "(ok " ++ showTV ty v ++ " " ++ toString r.length ++ ")")
+        | .error e => (st, showLoadErr e)
+      | _, _, _ => (st, "(bad-op loadfile)")
     | .list [.atom "packed", .atom name, .atom ver] =>
       match st.env.lookup name, ver.toNat? with
       | some ty, some ver => (st, "(ok " ++ toString (isPacked ty ver) ++ ")")
